@@ -35,7 +35,7 @@ struct SIMDVector<std::complex<T>, simd_abi::scalar> {
         value_i = (*data).imag();
     }
 
-    FASTOR_INLINE SIMDVector<T,simd_abi::scalar> operator=(std::complex<T> num) {
+    FASTOR_INLINE vector_type operator=(std::complex<T> num) {
         value_r = num.real();
         value_i = num.imag();
         return *this;
@@ -69,7 +69,7 @@ struct SIMDVector<std::complex<T>, simd_abi::scalar> {
         }
     }
 
-    FASTOR_INLINE T operator[](FASTOR_INDEX) const {return scalar_value_type(value_r,value_i);}
+    FASTOR_INLINE scalar_value_type operator[](FASTOR_INDEX) const {return scalar_value_type(value_r,value_i);}
 
     FASTOR_INLINE SIMDVector<T,simd_abi::scalar> real() const {
         return value_r;
@@ -162,7 +162,7 @@ struct SIMDVector<std::complex<T>, simd_abi::scalar> {
     FASTOR_INLINE scalar_value_type minimum() const {return scalar_value_type(value_r, value_i);}
     FASTOR_INLINE scalar_value_type maximum() const {return scalar_value_type(value_r, value_i);}
     FASTOR_INLINE scalar_value_type dot(const vector_type &other) const {
-        return vector_type(value_r, value_i)*vector_type(other.value_r, other.value_i);
+        return (vector_type(value_r, value_i)*vector_type(other.value_r, other.value_i)).sum();
     }
 
     value_type value_r;
@@ -254,7 +254,7 @@ operator-(U a, const SIMDVector<std::complex<T>,simd_abi::scalar> &b) {
 template <typename T>
 FASTOR_INLINE SIMDVector<std::complex<T>,simd_abi::scalar>
 operator-(const SIMDVector<std::complex<T>,simd_abi::scalar> &b) {
-    return SIMDVector<std::complex<T>,simd_abi::scalar>(0,0) - b;
+    return SIMDVector<std::complex<T>,simd_abi::scalar>(T(0),T(0)) - b;
 }
 
 template <typename T>
